@@ -1,10 +1,147 @@
-(* C19 — placeholder while the proofs are being written. *)
+(* C19 — Block fetch requests are never lost and go only to peers that have the block.
+   Statements over Model/Fetch.v; proofs in Proofs/FetchProofs.v.
+   [reachable s]: s is reached from the initial state by ANY finite list of atomic actions
+   (requests, announcements, reservations, accept steps, successes, failures, disconnects,
+   cancellations, requester wake-ups; any number of peers and requesters, any interleaving). *)
 From Coq Require Import ZArith List.
-From EC Require Import Model.Fetch.
+From EC Require Import Model.Fetch Proofs.FetchProofs.
 Import ListNotations.
 Open Scope Z_scope.
 
+(* request_conserved: while request() of requester r waits on its att-th completion channel for
+   block n, that channel is in exactly one place: in the queue under key n, or owned by a
+   connection as a call for block n, or already fired, or already dropped (in the last two cases
+   the requester's wake-up is enabled). It is never nowhere: the request is not lost. *)
+Theorem C19_request_conserved : forall s r n att, reachable s -> r_st (s_reqs s r) = RWait n att ->
+  let c := (r, att) in
+  (queued s n c \/ (exists p, held_by s p n c) \/ In c (s_sent s) \/ In c (s_dropped s)) /\
+  ~ (queued s n c /\ held_somewhere s c) /\
+  ~ (queued s n c /\ (In c (s_sent s) \/ In c (s_dropped s))) /\
+  ~ (held_somewhere s c /\ (In c (s_sent s) \/ In c (s_dropped s))) /\
+  ~ (In c (s_sent s) /\ In c (s_dropped s)).
+Proof. exact request_conserved. Qed.
+Print Assumptions C19_request_conserved.
+
+(* no_double_accept: a request (its completion channel) is owned by at most one connection, once. *)
+Theorem C19_no_double_accept : forall s p1 n1 p2 n2 c, reachable s ->
+  held_by s p1 n1 c -> held_by s p2 n2 c -> p1 = p2 /\ n1 = n2.
+Proof. exact no_double_accept. Qed.
+Print Assumptions C19_no_double_accept.
+
+Theorem C19_held_entries_distinct : forall s, reachable s -> NoDup (s_held s).
+Proof. exact held_entries_distinct. Qed.
+Print Assumptions C19_held_entries_distinct.
+
+(* back to the queue: a failed / timed-out call (EFail) or a disconnect (EDisc) drops the channel ... *)
+Theorem C19_failure_drops_channel : forall s p i e l' s',
+  take_pth p i (s_held s) = Some (e, l') -> step s (EFail p i) = Some s' ->
+  In (h_chan e) (s_dropped s') /\ s_held s' = l'.
+Proof. exact failure_drops_channel. Qed.
+Print Assumptions C19_failure_drops_channel.
+
+Theorem C19_disconnect_drops_all : forall s p s' n c,
+  p_alive (s_peers s p) = true -> held_by s p n c -> step s (EDisc p) = Some s' ->
+  In c (s_dropped s') /\ (forall n' c', ~ held_by s' p n' c').
+Proof. exact disconnect_drops_all. Qed.
+Print Assumptions C19_disconnect_drops_all.
+
+(* ... and a requester whose channel was dropped re-inserts its number with its next two moves,
+   whatever else happened in between (no side condition on the rest of the state). *)
+Theorem C19_dropped_request_requeues : forall s r n att,
+  r_st (s_reqs s r) = RWait n att -> In (r, att) (s_dropped s) ->
+  exists s1 s2, step s (RWakeDropped r) = Some s1 /\ step s1 (RIns r) = Some s2 /\
+    qlookup n (s_q s2) = Some (r, S att) /\ r_st (s_reqs s2 r) = RWait n (S att).
+Proof. exact dropped_request_requeues. Qed.
+Print Assumptions C19_dropped_request_requeues.
+
+(* only_announced + lowest_first (history form): if connection p owns a call for block n, then at
+   some earlier moment sc the range announced by p contained n, and at that moment or before it
+   n was the lowest requested number.  [s :: h] lists the states of the execution, latest first. *)
+Theorem C19_only_announced_lowest_first : forall h s p n c, hreach h s -> held_by s p n c ->
+  exists hs1 sc hs2, s :: h = hs1 ++ sc :: hs2 /\
+    contains (p_avail (s_peers sc p)) n = true /\
+    exists so, In so (sc :: hs2) /\ qmin (s_q so) = Some n.
+Proof. exact handed_only_lowest_and_announced. Qed.
+Print Assumptions C19_only_announced_lowest_first.
+
+Theorem C19_histories_are_all_executions : forall s, reachable s <-> exists h, hreach h s.
+Proof. intros s. split; [apply reachable_hreach|intros [h H]; eapply hreach_reachable; exact H]. Qed.
+Print Assumptions C19_histories_are_all_executions.
+
+(* step forms: the number is chosen only while announced and only the observed one; a call is created
+   only by the atomic removal of the chosen number; an observation reads the current lowest key. *)
+Theorem C19_chosen_only_if_announced : forall s a s' p n, step s a = Some s' ->
+  p_acc (s_peers s' p) = AChosen n ->
+  p_acc (s_peers s p) = AChosen n \/
+  (a = AAvail p /\ contains (p_avail (s_peers s p)) n = true /\
+   exists seen, p_acc (s_peers s p) = AWatch seen (Some n)).
+Proof. exact chosen_origin. Qed.
+Print Assumptions C19_chosen_only_if_announced.
+
+Theorem C19_held_only_by_take : forall s a s' p n c, step s a = Some s' -> held_by s' p n c ->
+  held_by s p n c \/
+  (a = ATake p /\ p_acc (s_peers s p) = AChosen n /\ qlookup n (s_q s) = Some c /\
+   p_alive (s_peers s p) = true).
+Proof. exact held_origin. Qed.
+Print Assumptions C19_held_only_by_take.
+
+(* lowest_first (state form): an acceptor that was not signalled since it looked at the queue is
+   waiting for the current lowest number, so it cannot choose a higher one while a lower is queued. *)
+Theorem C19_lowest_first_fresh : forall s p seen n, reachable s ->
+  p_acc (s_peers s p) = AWatch seen (Some n) -> seen = s_ver s -> s_q s <> [] ->
+  qmin (s_q s) = Some n.
+Proof. exact lowest_first_fresh. Qed.
+Print Assumptions C19_lowest_first_fresh.
+
+(* no_lost_wakeup (safety form): whenever the lowest key differs from what a waiting acceptor saw,
+   the watch version differs from the one it marked seen, i.e. its changed() is ready.  (The queue
+   becoming empty is the one change that is not signalled; it needs no wake-up.) *)
+Theorem C19_no_lost_wakeup : forall s p seen m, reachable s ->
+  p_acc (s_peers s p) = AWatch seen m ->
+  seen <= s_ver s /\ (seen = s_ver s -> s_q s <> [] -> m = qmin (s_q s)).
+Proof. exact no_lost_wakeup. Qed.
+Print Assumptions C19_no_lost_wakeup.
+
+(* progress_step: the lowest requested number, announced by a live peer whose acceptor is waiting
+   (or has a reserved call), is handed to that peer by at most three moves of that acceptor alone. *)
+Theorem C19_progress_step : forall s p n, reachable s ->
+  qmin (s_q s) = Some n -> p_alive (s_peers s p) = true -> contains (p_avail (s_peers s p)) n = true ->
+  ((p_acc (s_peers s p) = AIdle /\ p_permits (s_peers s p) <> O) \/
+   exists seen m, p_acc (s_peers s p) = AWatch seen m) ->
+  exists l s' c, Forall (acceptor_action p) l /\ run s l = Some s' /\
+                 qlookup n (s_q s) = Some c /\ held_by s' p n c.
+Proof. exact progress_step. Qed.
+Print Assumptions C19_progress_step.
+
+(* override_documented: "concurrent calls for the same resource number are unsupported - second call
+   will override the first call".  Two requesters for block 5 can knock each other out of the queue
+   forever without any peer ever being involved: after each cycle both are where they were, with
+   higher attempt numbers (shown for two rounds). *)
+Definition cyc := [RIns 1; RWakeDropped 0; RIns 0; RWakeDropped 1].
+Example C19_override_livelock :
+  match run init [EReq 0 5; EReq 1 5; RIns 0] with
+  | Some s1 =>
+      r_st (s_reqs s1 0%nat) = RWait 5 0 /\ r_st (s_reqs s1 1%nat) = RInsert 5 0 /\
+      match run s1 (cyc ++ cyc) with
+      | Some s2 => r_st (s_reqs s2 0%nat) = RWait 5 2 /\ r_st (s_reqs s2 1%nat) = RInsert 5 2 /\
+                   s_held s2 = [] /\ s_sent s2 = []
+      | None => False
+      end
+  | None => False
+  end.
+Proof. vm_compute. repeat split. Qed.
+
+(* Non-vacuity: a request is handed to a peer that announced it, the peer fails, the request returns
+   to the queue, another peer that announced it takes it and completes it. *)
 Example C19_nonvacuous :
-  exists s, run init [EReq 0 5; RIns 0; EPermit 1; EAvail 1 {| a_first := 3; a_last := Some 7 |};
-                      AStart 1; AAvail 1; ATake 1] = Some s /\ p_held (s_peers s 1%nat) = [(5, (0%nat, 0%nat))].
-Proof. eexists. split; reflexivity. Qed.
+  match run init
+    [EReq 0 5; RIns 0; EPermit 1; EAvail 1 {| a_first := 3; a_last := Some 7 |};
+     AStart 1; AAvail 1; ATake 1; EFail 1 0; RWakeDropped 0; RIns 0;
+     EPermit 2; EAvail 2 {| a_first := 5; a_last := Some 5 |}; AStart 2; AAvail 2; ATake 2;
+     ESucceed 2 0; RWakeSent 0] with
+  | Some s =>
+    r_st (s_reqs s 0%nat) = RDone true /\ s_q s = [] /\ s_held s = [] /\
+    s_dropped s = [(0%nat, 0%nat)] /\ s_sent s = [(0%nat, 1%nat)]
+  | None => False
+  end.
+Proof. vm_compute. repeat split. Qed.
